@@ -342,7 +342,7 @@ DT_CHOICES = [0.5, 1.0, 2.0, 5.0, 10.0, 25.0, 37.5, 50.0, 100.0, 150.0, 250.0, 5
 
 
 def gen_settings(rng, tier, phonon, static, method=None, order=None, overshoot=False,
-                 dt=None, full_output=False):
+                 dt=None, full_output=False, low_tmin=False):
     big = tier == "thorough"
     nv = phonon["nv"]
     if method is None:
@@ -352,6 +352,8 @@ def gen_settings(rng, tier, phonon, static, method=None, order=None, overshoot=F
         order = rng.choice(orders)
     qs = {}
     t_min = rng.choice([0, 0, 50, 300])
+    if low_tmin:
+        t_min = rng.choice([0.01, 0.5, 1, 5])      # arbitrarily low T > 0 as the first grid row
     if dt is None:
         dt = rng.choice(DT_CHOICES)
     nt = rng.randint(4, 12 if big else 9)
@@ -503,7 +505,7 @@ def gen_world(rng, tier, name, **kw):
                         cli_spelling=kw.get("cli_spelling", False))
     settings = gen_settings(rng, tier, phonon, static, method=kw.get("method"),
                             order=kw.get("order"), overshoot=kw.get("overshoot", False),
-                            dt=kw.get("dt"), full_output=kw.get("full_output", False))
+                            dt=kw.get("dt"), full_output=kw.get("full_output", False), low_tmin=kw.get("low_tmin", False))
     spelling = rng.choice(["yaml", "yaml", "yml", "json"])
     same_dir = rng.random() < 0.5
     return {
